@@ -736,6 +736,12 @@ fn dispatch(tier: Tier, seed: u64, run: u64) -> RunOutcome {
     }
 }
 
+pub fn runner(tier: Tier, seed: u64) -> Option<(u64, Box<dyn Fn(u64) -> RunOutcome + Sync>)> {
+    let (runs, _) = sizes(tier);
+    let (ncfg, chunks, _) = law_batch(seed, tier);
+    Some((runs + ncfg as u64 * chunks, Box::new(move |run| dispatch(tier, seed, run))))
+}
+
 pub fn rerun(tier: Tier, seed: u64, run: u64) -> Option<RunOutcome> {
     Some(dispatch(tier, seed, run))
 }
